@@ -430,6 +430,9 @@ class Doc:
                 if nm == cur:
                     continue
                 yield {"op": "typeref-el", "cls": "typeref-el:" + why, "n": e.idx, "v": nm, "mode": "set"}
+                if why in ("self", "ancestor", "other"):
+                    # the same reference written on a line of its own (white space around the name, as XML editors indent it)
+                    yield {"op": "typeref-el", "cls": "typeref-el:" + why + "+padded", "n": e.idx, "v": "\n      " + nm + "\n    ", "mode": "set"}
                 if has_comps:
                     yield {"op": "typeref-el", "cls": "typeref-el:" + why + "+drop-components", "n": e.idx, "v": nm, "mode": "replace"}
         for e in els:
@@ -438,6 +441,8 @@ class Doc:
                     for nm in ["tMissingC12"] + idnames:
                         if nm != a.value:
                             yield {"op": "at-dict", "cls": "typeref-at", "n": e.idx, "a": k, "v": nm}
+                    for nm in idnames:
+                        yield {"op": "at-dict", "cls": "typeref-at:padded", "n": e.idx, "a": k, "v": " " + nm + " "}
 
     @staticmethod
     def fault_class(f):
